@@ -284,8 +284,27 @@ impl Prop for C20 {
                     ea.dedup();
                     eb.sort();
                     eb.dedup();
-                    if ea.is_empty() || eb.is_empty() {
-                        return Err(("a wrong id was accepted".to_string(), json!({"wrong_a": wrong_a, "expected_after_a": ea, "wrong_b": wrong_b, "expected_after_b": eb})));
+                    // a generated "wrong" id can happen to be one of the expected ids (seen once in twenty million cases): it is then accepted,
+                    // rightly, and has to be a member of the set the other proposal reports
+                    if ea.is_empty() && eb.is_empty() {
+                        let mut ec: Vec<String> = test_single_game_rule(&format!("{wrong_a}{wrong_b}zq"), name).iter().map(|f| f.expected_id.clone()).collect();
+                        ec.sort();
+                        ec.dedup();
+                        if ec.is_empty() || !ec.contains(wrong_a) || !ec.contains(wrong_b) {
+                            return Err(("a wrong id was accepted".to_string(), json!({"wrong_a": wrong_a, "wrong_b": wrong_b, "expected_after_a_third_id": ec})));
+                        }
+                        ea = ec.clone();
+                        eb = ec;
+                    } else if ea.is_empty() {
+                        if !eb.contains(wrong_a) {
+                            return Err(("a wrong id was accepted".to_string(), json!({"wrong_a": wrong_a, "expected_after_a": ea, "wrong_b": wrong_b, "expected_after_b": eb})));
+                        }
+                        ea = eb.clone();
+                    } else if eb.is_empty() {
+                        if !ea.contains(wrong_b) {
+                            return Err(("a wrong id was accepted".to_string(), json!({"wrong_a": wrong_a, "expected_after_a": ea, "wrong_b": wrong_b, "expected_after_b": eb})));
+                        }
+                        eb = ea.clone();
                     }
                     if ea != eb {
                         return Err(("expected ids depend on the proposed id".to_string(), json!({"after_a": ea, "after_b": eb})));
